@@ -13,3 +13,4 @@ PROP = dict(
     bins=[rc('C09_optional', 'harness/C09_optional.cpp', None),
           rc('C09_any', 'harness/C09_any.cpp', 'tbb-asan')],
 )
+PROP['rule'] += ' Round-3 extension: payload types also include a trivially copyable type with default member initialisers and its own operator=(U); plus histories of emplace() whose payload constructor throws on request (the optional is then empty and nothing is destroyed twice).'
